@@ -34,8 +34,9 @@ void scalePositions(const vector<double> &starts, const vector<double> &ends,
         scaled_starts.resize(count);
     if (scaled_ends.size() != count)
         scaled_ends.resize(count);
-    double scaling= 1.0;
     for (size_t i = 0; i < count; ++i) {
+        // every entry is scaled by its own unit; an entry without unit is not scaled at all
+        double scaling = 1.0;
         if (i < units.size() && units[i] != "none" && dim_unit != "none") {
             try {
                 scaling = util::getSIScaling(units[i], dim_unit);
